@@ -214,6 +214,96 @@ def run(ctx):
     WANT[case] = ([("junk", 1, "fraghdr-cache-overrun"), ("msg", etf.denote(ctl), etf.denote(payload))], False)
     cases.append(case)
 
+    # paced histories: the peer sends one message at a time and the caller polls in between — a receive that times out on
+    # an idle connection consumes nothing and forgets nothing (the atom cache the peer filled before the pause is still
+    # what later headers refer to); short timeout so the idle polls are cheap
+    paced, PACED = [], {}
+    for k in range(ctx.budget(6, 60)):
+        hdr_sets = [fs for fs in FLAGSETS if fs[0] & fs[1] & connlib.DFLAG_DIST_HDR_ATOM_CACHE] or FLAGSETS
+        cfgf, peerf = hdr_sets[k % len(hdr_sets)] if k % 3 else FLAGSETS[k % len(FLAGSETS)]
+        hdr = bool(cfgf & peerf & connlib.DFLAG_DIST_HDR_ATOM_CACHE)
+        half = not hdr and k % 2 == 1
+        sender = C14.Sender(rng, "any") if hdr else None
+        cache, steps, want = {}, [], []
+        n_msgs = rng.choice([3, 4, 5])
+        idle_after = set(rng.sample(range(n_msgs - 1), rng.choice([1, 2])))
+        for j in range(n_msgs):
+            ctl, payload = gen_message(rng)
+            if hdr:
+                body = sender.message([ctl] + ([payload] if payload is not None else []))
+                c, pl = etf.spec_read_dist_message(body, cache)
+            else:
+                body = connlib.pass_through(ctl, payload, rng)
+                c, pl = etf.denote(termgen.strip_loc(ctl)), None if payload is None else etf.denote(termgen.strip_loc(payload))
+            steps += ["P " + frame(body).hex(), "H" if half else "R"]
+            want.append(("msg", c, pl))
+            if j in idle_after:
+                steps.append("H" if half else "R")
+                want.append(("idle",))
+        case = SEP.join(["conn %d %d 1 T400" % (cfgf, peerf)] + steps + ["X", "H" if half else "R"])
+        PACED[case] = want + [("eof",)]
+        paced.append(case)
+
+    def paced_oracle(case, impl):
+        if impl.startswith(("PANIC", "CRASH", "TIMEOUT", "connect-err")):
+            return ("violation", "the receiving task did not survive: " + impl[:60])
+        outs = impl.split(SEP)[:-1]
+        want = PACED[case]
+        for i, w in enumerate(want):
+            o = outs[i] if i < len(outs) else "nothing"
+            if w[0] == "idle":
+                if o != "timeout":
+                    return ("violation", "poll %d of an idle connection does not time out: %s" % (i, o[:60]))
+            elif w[0] == "eof":
+                if o != "eof":
+                    return ("violation", "the peer's close is not reported after the last message: %s" % o[:60])
+            else:
+                got = connlib.parse_recv(o) if o.startswith("ok ") else ("nothing",)
+                if not (got[0] == "ok" and etf.denote(got[1]) == w[1] and (None if got[2] is None else etf.denote(got[2])) == w[2]):
+                    return ("violation", "message at step %d, sent after the connection had been idle for a receive timeout, is not delivered as sent: %s" % (i, o[:80]))
+        return None
+    ctx.diff_domain("conn", paced, oracle=paced_oracle, nontrivial=lambda c, i: c,
+                    classify=lambda c, i: ["api:" + ("receive_message_from_read_half" if SEP + "H" in c else "receive_message"), "paced:idle-polls"] +
+                                          ["frame:message" if w[0] == "msg" else "poll:" + w[0] for w in PACED[c]])
+
+    # a frame whose bytes arrive with a pause longer than the receive timeout inside it: the receive that was waiting
+    # returns Timeout — and has thrown away the part of the frame it had read (the read is cancelled inside read_exact), so
+    # the next receive starts in the middle of the frame: recorded as C06-timeout-mid-frame
+    stalled, STALL = [], {}
+    import random
+    srng = random.Random(20261001)      # the same three histories under every seed
+    for k, cut in enumerate([2, -1, -3]):
+        ctl, payload = gen_message(srng)
+        f1 = frame(connlib.pass_through(ctl, payload, srng))
+        ctl2, payload2 = gen_message(srng)
+        f2 = frame(connlib.pass_through(ctl2, payload2, srng))
+        c = cut if cut > 0 else len(f1) + cut
+        half = k == 1
+        r = "H" if half else "R"
+        case = SEP.join(["conn %d %d 1 T300" % FLAGSETS[0], "P " + f1[:c].hex(), r, "P " + f1[c:].hex(), r, "P " + f2.hex(), r, "X", r])
+        STALL[case] = [("idle",)] + [("msg", etf.denote(termgen.strip_loc(a)), None if b is None else etf.denote(termgen.strip_loc(b))) for a, b in ((ctl, payload), (ctl2, payload2))] + [("eof",)]
+        stalled.append(case)
+
+    def stalled_oracle(case, impl):
+        if impl.startswith(("PANIC", "CRASH", "TIMEOUT", "connect-err")):
+            return ("violation", "the receiving task did not survive: " + impl[:60])
+        outs = impl.split(SEP)[:-1]
+        want = STALL[case]
+        if not outs or outs[0] != "timeout":
+            return ("violation", "a receive with half a frame to read does not time out: %s" % (outs[0] if outs else "nothing")[:60])
+        for i, w in enumerate(want[1:], 1):
+            o = outs[i] if i < len(outs) else "nothing"
+            if w[0] == "eof":
+                ok = o == "eof"
+            else:
+                got = connlib.parse_recv(o) if o.startswith("ok ") else ("nothing",)
+                ok = got[0] == "ok" and etf.denote(got[1]) == w[1] and (None if got[2] is None else etf.denote(got[2])) == w[2]
+            if not ok:
+                return ("known", "C06-timeout-mid-frame")
+        return None
+    ctx.diff_domain("conn", stalled, oracle=stalled_oracle, nontrivial=lambda c, i: c,
+                    classify=lambda c, i: ["api:" + ("receive_message_from_read_half" if SEP + "H" in c else "receive_message"), "paced:stall-inside-a-frame"])
+
     # receive_raw: the frames themselves, ticks included, whatever they contain
     raw_cases, RAW = [], {}
     for k in range(ctx.budget(30, 600)):
